@@ -381,7 +381,9 @@ func (r *Runner) doMerge() {
 	if !r.call("Merge", func() { err = r.DB.Merge() }) {
 		return
 	}
-	if r.C.Prop != "C14" || r.allSameFileSize() {
+	// Merge's return value is not part of the C14 transcript: whether the rewritten records fit below the marker id
+	// depends on the order in which Merge visits the files, which is map-iteration order (random in production)
+	if r.C.Prop != "C14" {
 		r.note("merge -> %s", errName(err))
 	}
 	r.extra["lastMergeErr"] = err
